@@ -562,3 +562,48 @@ example : ∃ s s1 s2, s.pc = .sent ∧ s.threshold = 1 ∧ startDisabled s.inte
   ⟨{ (init (some 4)) with pc := .sent, threshold := 1, running := true }, _, _, rfl, rfl, by decide, rfl, rfl, by decide, by decide⟩
 
 end Amqp.C12
+
+/-! ## An idle check interval ends with a heartbeat -/
+namespace Amqp.C12
+open Amqp Amqp.Hb Amqp.Gen.Heartbeat
+
+/-- the `finally` of a check leaves the write counter at zero -/
+theorem clear_resets_writes (s s' : St) (h : step s .clear = some s') : s'.writes = 0 := by
+  simp only [step] at h
+  split at h
+  · injection h with h; subst h; rfl
+  · cases h
+
+/-- while nobody writes (no application write, no check sending a heartbeat) the counter stays at zero,
+    whatever else happens: time, inbound frames, the rest of a running check, stop/start, open/close -/
+theorem quiet_window_keeps_writes_zero (as : List Act) (s s' : St) (hw : s.writes = 0)
+    (hq : ∀ a ∈ as, a ≠ .write ∧ ∀ id, a ≠ .fire id) (hs : run s as = some s') : s'.writes = 0 := by
+  induction as generalizing s with
+  | nil => simp only [run, Option.some.injEq] at hs; subst hs; exact hw
+  | cons a as ih =>
+    simp only [run] at hs
+    split at hs
+    · rename_i s1 h1
+      have h0 : s1.writes = 0 := by
+        have hne := hq a List.mem_cons_self
+        cases a with
+        | write => exact absurd rfl hne.1
+        | fire id => exact absurd rfl (hne.2 id)
+        | _ =>
+          simp only [step, startNewTimer] at h1
+          (repeat' split at h1) <;> (cases h1 <;> simp_all [resetWrites, startWrites])
+      exact ih s1 h0 (fun b hb => hq b (List.mem_cons_of_mem _ hb)) hs
+    · cases hs
+
+/-- **Whenever a whole check interval passes in which the client sent nothing, the check at its end writes a
+    heartbeat**: from the reset of one check, through any history without outbound traffic, to the next
+    firing on an open, running connection -/
+theorem idle_interval_ends_with_heartbeat (as : List Act) (s0 s1 s2 s3 : St) (id : Nat)
+    (hclear : step s0 .clear = some s1)
+    (hq : ∀ a ∈ as, a ≠ .write ∧ ∀ id, a ≠ .fire id) (hrun : run s1 as = some s2)
+    (hr : s2.running = true) (ho : s2.connOpen = true) (hfire : step s2 (.fire id) = some s3) :
+    s3.hbs = s2.hbs + 1 ∧ s3.lastOut = s2.now :=
+  heartbeat_when_idle s2 s3 id hfire hr ho
+    (quiet_window_keeps_writes_zero as s1 s2 (clear_resets_writes s0 s1 hclear) hq hrun)
+
+end Amqp.C12
